@@ -200,9 +200,14 @@ func paramOK(hc *sym.HarnessConfig) bool {
 	if paramFilter == "" {
 		return true
 	}
-	kv := strings.SplitN(paramFilter, "=", 2)
-	v, _ := strconv.Atoi(kv[1])
-	return hc.Params[kv[0]] == v
+	for _, f := range strings.Split(paramFilter, ",") {
+		kv := strings.SplitN(f, "=", 2)
+		v, _ := strconv.Atoi(kv[1])
+		if hc.Params[kv[0]] != v {
+			return false
+		}
+	}
+	return true
 }
 
 func cmdCheck(args []string) int {
@@ -232,6 +237,12 @@ func cmdCheck(args []string) int {
 	res.Wall = time.Since(t0).Seconds()
 	if *only == "" {
 		writeEvidence(c, *tier, seed, res)
+	}
+	if *verbose {
+		for _, sm := range res.Samples {
+			b, _ := json.Marshal(sm)
+			fmt.Fprintln(os.Stderr, "sample:", string(b))
+		}
 	}
 	for _, l := range res.KnownLines {
 		fmt.Println("KNOWN-FINDING: " + l)
@@ -343,6 +354,9 @@ func runCheck(c *CheckDef, tier string, workers int, only, solver string, seed i
 	}
 	if c.Deadline != nil {
 		run.Deadline = time.Now().Add(c.Deadline(tier))
+	}
+	if mp := os.Getenv("VERIF_MAXPATHS"); mp != "" {
+		run.MaxPaths, _ = strconv.Atoi(mp)
 	}
 	timeoutMs := 20000
 	if tier == "thorough" {
